@@ -15,6 +15,7 @@ RULE = ("each run executes 40 explicit scenarios in one process: frames (body 0.
         "inconsistent totals), id reuse after abandoned, after completed and during pending groups (crafted by an independent fragmenter), oversize frames, >65536 frames (thorough), "
         "all permutations x duplications of <= 6 fragments (thorough); non-trivial = a frame of >= 2 fragments met reordering, duplication, loss or a timer; "
         "distinct = distinct scenario schedules")
+RULE_MORE = 'Later additions: id reuse while a group with that id is pending and after one has completed (crafted by the reference fragmenter); timeouts with several groups pending.'
 LEVEL_TEXT = ("seeded exploration plus enumeration of small schedules against the real Fragments code inside the binary: safety (only sent frames, at most once), liveness "
               "(exactly once when every fragment arrives in time and the id is not reused concurrently), isolation (malformed or abandoned groups never disturb other "
               "frames or later frames that reuse an id), no panic on any fragment header")
